@@ -10,6 +10,9 @@ KINDS = {
  "r5": """  (1) OPTION / CONFIGURATION: the change shows only under a non-default option, mode or configuration value that the property's quantifier covers (the default path stays byte-for-byte the same).
   (2) ONE TYPE AMONG SEVERAL: several types / variants / functions implement the behaviour the property talks about; break exactly one of the less prominent ones (a sibling type, the quality-carrying variant, one of several generated variants, one encoding), in the method of that type and not in shared code.
   (3) STATE AFTER AN EARLY RETURN OR A REJECTED OPERATION: an operation that returns early (empty input, error, rejected argument, already-done) leaves state behind - a buffer not reset, a counter not restored, a flag not cleared, a lock/slot not released - so that a LATER, perfectly ordinary operation on the same object (or on another object that shares something with it) violates the property.  If the property has no error path, use the early return for an empty / zero-length / already-complete input.""",
+ "r8": """  (1) THE LEAST-WATCHED CLAUSE: read the statement and its quantifier carefully and pick the clause, or the corner of the quantifier, that you judge an automated property checker is LEAST likely to exercise (a secondary accessor, a rarely combined parameter, a return value next to the main one, an input shape named late in the list); break only that.
+  (2) A PERFORMANCE REWRITE WITH A SLIP: rewrite the hottest function of the anchored code for speed in a way a reviewer would welcome (fewer allocations, table lookup, loop fusion, early exit, unsafe-free reslicing) and let one semantic detail slip, for inputs that are valid but unusual; the common path must stay bit-identical.
+  (3) A LEGAL BUT UNCONVENTIONAL USE: the result changes when the caller uses the API in an order or manner that is allowed but that examples never show - an accessor called before or between the main calls, the same call made twice, two objects used in turn, an argument object reused or modified after the call, a zero-value or freshly copied receiver.""",
  "r7": """  (1) EDGE OF THE VALUE DOMAIN: wrong only for an extreme or degenerate value the quantifier covers - the largest / smallest representable number, zero length, an empty collection, all elements equal, duplicates, an all-gap or all-invalid input, the last valid code of a table - and right for every ordinary value.  (Not a size threshold: a value.)
   (2) TWO FEATURES THAT MEET: two options, modes or operations each of which works alone and which are wrong only in combination (this flag AND that mode; this operation directly after that one on the same object; both ends at once) - the change sits where the two code paths meet.
   (3) LIFETIME: something lives too long or not long enough - a result that aliases an internal buffer which a LATER call reuses, a goroutine / file / channel left behind on a rare path, a resource released while a result still refers to it, state of a finished (closed, cleaned-up, drained) object that a following legal call trips over.""",
